@@ -286,6 +286,8 @@ impl Node {
         out.push(self.mon.scan);
         out.extend_from_slice(&(self.mon.frame.len() as u64).to_le_bytes());
         out.extend_from_slice(&self.mon.frame);
+        // stateless fallback: the history is part of the key, so nothing is ever merged
+        self.dec.hist_key(out);
         s
     }
 }
@@ -816,6 +818,24 @@ pub fn replay(case: &J) -> Vec<Viol> {
             crate::e1c::c14_compare(kind, &path, &cont, adapt_lhs).into_iter().collect()
         }
         Some("c08b") => crate::e1c::replay_c08b(case),
+        Some("c14split") => {
+            let b = case.get("bytes").and_then(|b| b.as_str()).and_then(crate::json::unhex).unwrap_or_default();
+            let k = (case.get("split").and_then(|k| k.as_i()).unwrap_or(0) as usize).min(b.len());
+            let whole = crate::fe::fe_push::<Vec<u8>>(&b).events;
+            let mut cat = crate::fe::fe_push::<Vec<u8>>(&b[..k]).events;
+            cat.extend(crate::fe::fe_push::<Vec<u8>>(&b[k..]).events);
+            if whole != cat {
+                vec![Viol {
+                    class: "C14 decoding a concatenation of transmissions differs from concatenating the decodings".into(),
+                    key: format!("split:{}", k),
+                    what: format!("whole {} vs parts {}", crate::fe::evs_short(&whole), crate::fe::evs_short(&cat)),
+                    case: case.clone(),
+                    size: b.len(),
+                }]
+            } else {
+                vec![]
+            }
+        }
         Some("bytes") => {
             let b = case.get("bytes").and_then(|b| b.as_str()).and_then(crate::json::unhex).unwrap_or_default();
             let r = crate::mon::mon_run(kind, &b, &[]);
